@@ -24,9 +24,10 @@ from mdmc.refs.engine_model import R, Trace, ref_scan
 #  dL  decoded, value = covered text + b"YZ" (longer, shares a prefix with the raw text)
 #  k   value is the covered text but the decoder supplies one child      -> treated as decoded, child is descended into
 #  dk  decoded value b"WXYZ" with a supplied child on [1,2)
+#  kk  like k, but the supplied sub-structure is two levels deep (child with a grandchild): depth accounting while descending
 #  dT  type "", value = the whole text T: restates the root when it sits at offset 0, otherwise decodes to the
 #      input again (the natural "always decodable again" case: searching its value yields the same hits)
-KINDS = ("p", "q", "u", "d1", "dE", "dL", "k", "dk", "dT")
+KINDS = ("p", "q", "u", "d1", "dE", "dL", "k", "dk", "dT", "kk")
 MODES = ("r0", "rp", "rd", "rk")
 #  r0 nothing is found in decoded values           rp one plain hit on the first byte of any decoded value
 #  rd every decoded value decodes again (value + b"!"), so only the depth budget stops the recursion
@@ -61,6 +62,8 @@ def spec(T: bytes, a: int, b: int, kind: str):
         return ("k", b"WXYZ", "dk", a, b, [("kc", b"X", "", 1, 2, [])])
     if kind == "dT":
         return ("", T, "dT", a, b, [])
+    if kind == "kk":
+        return ("k", cov, "", a, b, [("kc", b"qr", "", 0, 1, [("kg", b"g", "", 0, 1, [])])])
     raise ValueError(kind)
 
 
